@@ -45,6 +45,19 @@ def configs(tier, seed):
         cfgs.append(dict(backend=b, backoff='r0x2', n=2, messages=1, d=1, dd=3, menu=MENU, bounce_queue='separate'))
         cfgs.append(dict(backend=b, backoff='r0x2', n=2, messages=1, d=1, dd=3, menu=MENU, senders={'0': ''}))
         cfgs.append(dict(backend=b, backoff='r10', n=2, messages=2, d=1, dd=2, menu=MENU))
+        # a real second Queue as bounce queue, built (and possibly not started) before the main queue
+        cfgs.append(dict(backend=b, backoff='r0x2', n=2, messages=1, d=1, dd=3, menu=MENU, bounce_queue='separate-real'))
+    cfgs.append(dict(backend='dict', backoff='r0x2', n=2, messages=1, d=1, dd=3, menu=MENU, bounce_queue='separate-real-started'))
+    # the same id reported twice (start-up load + wait() announcement, as a shared store does after a restart) while
+    # the storage read of the first report is still in flight: still one attempt, one bounce
+    cfgs.append(dict(backend='dict', backoff='never', n=2, messages=0, prestored=1, harness_wait=True, slow_ops=['get'], d=3, dd=2, menu=MENU,
+                     script=[['announce', 0], ['announce', 0]]))
+    cfgs.append(dict(backend='redis', backoff='never', n=2, messages=0, prestored=1, redis_yields=['hmget'], d=3, dd=2, menu=MENU))
+    # failure replies produced by the real relay classes (incl. the library's pre-defined replies for lost
+    # connections and timeouts), two messages in one process
+    for rk in ('smtp', 'lmtp', 'pipe'):
+        for bo in ('never', 'r0x2'):
+            cfgs.append(dict(backend='dict', backoff=bo, n=2, messages=2, d=0, dd=3 if (q or bo == 'r0x2') else 4, relay_kind=rk, menu={}))
     return cfgs
 
 
@@ -132,6 +145,9 @@ def judge(cfg, qw):
     for i, b in enumerate(qw.bounces):
         if b.get('foreign'):
             out.append(('unexpected-bounce-enqueued', 'a bounce not produced by the bounce factory was enqueued'))
+    for kind, detail in qw.violations:
+        if kind in ('bounce-not-handed-to-configured-queue', 'shared-reply-constant-modified', 'relay-report-depends-on-history'):
+            out.append((kind, detail))
     n_orig = len(originals)
     if qw.total_messages > n_orig + total_groups:
         out.append(('bounce-feedback', '%d messages were created from %d originals and %d failure groups' % (qw.total_messages, n_orig, total_groups)))
@@ -140,6 +156,8 @@ def judge(cfg, qw):
 
 def run_one(cfg, ch):
     cfg = dict(cfg)
+    if 'script' in cfg:
+        cfg['script'] = [tuple(a) for a in cfg['script']]
     if cfg.pop('body8', False):
         cfg['body'] = BODY8
     if 'senders' in cfg:
